@@ -21,6 +21,7 @@ import PvProofs.Lemmas.VownerEffects
 import PvProofs.Lemmas.VownerGrants
 import PvProofs.Lemmas.VownerChecker
 import PvProofs.Lemmas.VownerFirst
+import PvProofs.Lemmas.VownerExchange
 
 namespace PvProofs.C09
 open PvModel PvModel.Ledger PvModel.Vowner PvProofs.VownerL
@@ -69,6 +70,7 @@ def opEffectiveSigners (s : State) : Op → List Addr
   | .mwithdraw _ admin _ _ => [admin]
   | .msend frm _ => [frm]
   | .mtransfer admin _ _ _ => [admin]
+  | .fill buyer _ _ => [buyer]
   | _ => []
 
 /-- marker MsgTransfer never succeeds on a scope token (`GetMarkerByDenom` finds no marker) -/
@@ -104,6 +106,13 @@ theorem exec_step {s s' : State} {op : Op} (hinv : Inv s) (h : exec s op = .ok s
   | mstatus m st =>
     obtain ⟨h1, h2⟩ := setStatus_eq h
     exact ⟨inv_of_ledger_scopes_eq hinv h1 h2, goodStep_of_ledger_eq _ _ h1⟩
+  | ask sl a p =>
+    obtain ⟨h1, h2, _⟩ := createAsk_spec h
+    exact ⟨inv_of_ledger_scopes_eq hinv h1 h2, goodStep_of_ledger_eq _ _ h1⟩
+  | fill b oid p => obtain ⟨h1, h2, _⟩ := fill_step hinv h; exact ⟨h1, h2⟩
+  | cancel sg oid =>
+    obtain ⟨h1, h2, _⟩ := cancelOrder_spec h
+    exact ⟨inv_of_ledger_scopes_eq hinv h1 h2, goodStep_of_ledger_eq _ _ h1⟩
 
 theorem opEffectiveSigners_sub (s : State) (op : Op) : ∀ x ∈ opEffectiveSigners s op, x ∈ opSigners op := by
   cases op <;> simp [opEffectiveSigners, opSigners, stepInfo] <;> exact effectiveSigners_sub s _
@@ -126,6 +135,9 @@ theorem exec_step_signers {s s' : State} {op : Op} (hinv : Inv s) (h : exec s op
   | revoke gr ge mt => exact hg.mono (opEffectiveSigners_sub s _) (by simp [opKind, stepInfo])
   | access m a ps => exact hg.mono (opEffectiveSigners_sub s _) (by simp [opKind, stepInfo])
   | mstatus m st => exact hg.mono (opEffectiveSigners_sub s _) (by simp [opKind, stepInfo])
+  | ask sl a p => exact hg.mono (opEffectiveSigners_sub s _) (by simp [opKind, stepInfo])
+  | fill b oid p => exact hg
+  | cancel sg oid => exact hg.mono (opEffectiveSigners_sub s _) (by simp [opKind, stepInfo])
 
 /-- A rejected message changes nothing (the model is transactional by construction; the harness
 checks the same of the implementation by comparing dumps). -/
@@ -245,6 +257,9 @@ theorem supply_changes_only_by_write_delete {s s' : State} (hinv : Inv s) (op : 
   | revoke gr ge mt => rw [(deleteGrant_eq h).1]
   | access m a ps => rw [(setAccess_eq h).1]
   | mstatus m st => rw [(setStatus_eq h).1]
+  | ask sl a p => rw [(createAsk_spec h).1]
+  | fill b oid p => exact (fill_step hinv h).2.2.1 d
+  | cancel sg oid => rw [(cancelOrder_spec h).1]
 
 /-- a WriteScope without a value-owner field never touches any token -/
 theorem write_without_value_owner_keeps_tokens {s s' : State} (hinv : Inv s) (id : ScopeId)
@@ -447,6 +462,9 @@ theorem env_ops_move_nothing {s s' : State} (op : Op) (hk : opKind op = .env) (h
   | mwithdraw mk ad to ids => simp [opKind, stepInfo] at hk
   | msend frm outs => simp [opKind, stepInfo] at hk
   | mtransfer ad frm to id => simp [opKind, stepInfo] at hk
+  | ask sl a p => exact heq ⟨(createAsk_spec h).1, (createAsk_spec h).2.1⟩
+  | fill b oid p => simp [opKind, stepInfo] at hk
+  | cancel sg oid => exact heq ⟨(cancelOrder_spec h).1, (cancelOrder_spec h).2.1⟩
 
 /-- **messages_never_create_grants**: no message of the model creates or widens an authz
 authorization — every grant in force afterwards goes back to a grant (same granter, grantee,
@@ -528,6 +546,9 @@ theorem messages_never_create_grants {s s' : State} (hinv : Inv s) (op : Op) (hk
   | revoke gr ge mt => simp [opKind, stepInfo] at hk
   | access m a ps => simp [opKind, stepInfo] at hk
   | mstatus m st => simp [opKind, stepInfo] at hk
+  | ask sl a p => simp [opKind, stepInfo] at hk
+  | fill b oid p => exact grantsSub_of_eq (fill_step hinv h).2.2.2.1
+  | cancel sg oid => simp [opKind, stepInfo] at hk
 
 /-! ## Clause 2b — consent through an authz grant costs one of the grant's uses -/
 
@@ -600,6 +621,9 @@ theorem authz_consent_uses_grant {s s' : State} (hinv : Inv s) (op : Op) (mt : M
   | revoke gr ge mt => simp [opKind, stepInfo] at hk
   | access m a ps => simp [opKind, stepInfo] at hk
   | mstatus m st => simp [opKind, stepInfo] at hk
+  | ask sl a p => simp [opKind, stepInfo] at hk
+  | fill b oid p => simp [opKind, stepInfo] at hk
+  | cancel sg oid => simp [opKind, stepInfo] at hk
 
 /-- **one_use_grant_is_gone** — a grant for ONE use authorises one change: under the hypotheses
 above, when every grant `hd` has given to a signer for this message type is a count
@@ -675,7 +699,8 @@ def RouteConsent (s : State) (hd : Addr) : Op → Prop
   | .mwithdraw mk admin _ _ =>                      -- the holder is the marker, the administrator has withdraw on it
     hd = mk ∧ ∃ m, findMarker s mk = some m ∧ m.has admin .withdraw = true
   | .mtransfer .. => False                          -- marker MsgTransfer never carries a scope token
-  | .fund .. | .grant .. | .revoke .. | .access .. | .mstatus .. => False
+  | .fill _ oid _ => ∃ o ∈ s.orders, o.id = oid ∧ o.seller = hd   -- the holder made the ask order being filled
+  | .fund .. | .grant .. | .revoke .. | .access .. | .mstatus .. | .ask .. | .cancel .. => False
 
 /-- marker MsgTransfer cannot move a scope token: it is rejected in every state -/
 theorem marker_transfer_never_moves_scope_token (s : State) (ad frm to : Addr) (id : ScopeId) :
@@ -737,7 +762,7 @@ theorem whichever_message_consent_partial {s s' : State} (hinv : Inv s) (op : Op
         | some m2 =>
           rw [hm2] at h; simp only at h
           (repeat' (split at h)) <;> simp at h
-          rename_i hf
+          rename_i hf _
           subst h
           have hf' : hasFunds s.ledger mk ids = true := by simpa using hf
           obtain ⟨hsrc, hfin⟩ := holderIs_move (b := to) hnd' hf' hbefore
@@ -752,6 +777,9 @@ theorem whichever_message_consent_partial {s s' : State} (hinv : Inv s) (op : Op
   | revoke gr ge mt => exact hc
   | access m a ps => exact hc
   | mstatus m st => exact hc
+  | ask sl a p => exact hc
+  | fill b oid p => exact hc
+  | cancel sg oid => exact hc
 
 /-- the hypotheses are satisfiable through MsgMultiSend: `C` multi-sends its two tokens to two
 receivers; a stranger's multi-send of `C`'s token is rejected -/
@@ -827,6 +855,9 @@ theorem first_owner_set_only_by_write {s s' : State} (hinv : Inv s) (op : Op) (h
   | revoke gr ge mt => exact (hkeep (by intros; simp) (by intros; simp)).elim
   | access m a ps => exact (hkeep (by intros; simp) (by intros; simp)).elim
   | mstatus m st => exact (hkeep (by intros; simp) (by intros; simp)).elim
+  | ask sl a p => exact (hkeep (by intros; simp) (by intros; simp)).elim
+  | fill b oid p => exact (hkeep (by intros; simp) (by intros; simp)).elim
+  | cancel sg oid => exact (hkeep (by intros; simp) (by intros; simp)).elim
 
 /-- the hypotheses are satisfiable on an existing scope: `s1` (parties `A`, `B`) is written
 without a value owner; a later write signed by both parties names `C`; signed by `A` alone it is
@@ -1024,6 +1055,9 @@ theorem step_ok {s : State} (hinv : Inv s) (op : Op) (ids : List ScopeId)
       | revoke _ _ _ => simp [deleteOne, stepInfo]
       | access _ _ _ => simp [deleteOne, stepInfo]
       | mstatus _ _ => simp [deleteOne, stepInfo]
+      | ask _ _ _ => simp [deleteOne, stepInfo]
+      | fill _ _ _ => simp [deleteOne, stepInfo]
+      | cancel _ _ => simp [deleteOne, stepInfo]
     have hgu : (observe s1 ids).scopes.all (grantUseOne (observe s ids) (stepInfo op true) (observe s1 ids)) = true := by
       simp only [observe, List.all_eq_true, List.mem_map]
       rintro o ⟨id, hid, rfl⟩
